@@ -7,6 +7,7 @@ import (
 	"os/exec"
 	"path/filepath"
 	"strings"
+	"syscall"
 	"time"
 )
 
@@ -20,6 +21,10 @@ type scriptResult struct {
 }
 
 func runScript(script string, stdin string, files map[string]string, extraPath string) scriptResult {
+	return runScriptT(script, stdin, files, extraPath, 10*time.Second)
+}
+
+func runScriptT(script string, stdin string, files map[string]string, extraPath string, limit time.Duration) scriptResult {
 	dir, _ := os.MkdirTemp("", "run")
 	defer os.RemoveAll(dir)
 	work := filepath.Join(dir, "w")
@@ -38,6 +43,8 @@ func runScript(script string, stdin string, files map[string]string, extraPath s
 	}
 	cmd.Env = []string{"PATH=" + path, "HOME=" + work, "LC_ALL=C"}
 	cmd.Stdin = strings.NewReader(stdin)
+	cmd.SysProcAttr = &syscall.SysProcAttr{Setpgid: true} // so that everything the script forks can be killed with it
+	cmd.WaitDelay = time.Second                           // do not wait for orphans that keep the pipes open
 	var so, se bytes.Buffer
 	cmd.Stdout = &so
 	cmd.Stderr = &se
@@ -54,11 +61,13 @@ func runScript(script string, stdin string, files map[string]string, extraPath s
 		if ee, ok := err.(*exec.ExitError); ok {
 			res.status = ee.ExitCode()
 		}
-	case <-time.After(10 * time.Second):
+	case <-time.After(limit):
+		syscall.Kill(-cmd.Process.Pid, syscall.SIGKILL)
 		cmd.Process.Kill()
 		<-done
 		res.timeout = true
 	}
+	syscall.Kill(-cmd.Process.Pid, syscall.SIGKILL) // whatever the script left running
 	res.stdout, res.stderr = so.String(), se.String()
 	filepath.Walk(work, func(p string, info os.FileInfo, err error) error {
 		if err == nil && !info.IsDir() {
